@@ -845,7 +845,7 @@ func ruleResumeCursor(c *Ctx) {
 }
 
 func init() {
-	register(&Rule{ID: "R9.emit-covers-state", Props: []string{"C09"}, Floor: 9,
+	register(&Rule{ID: "R9.emit-covers-state", Props: []string{"C09", "C14"}, Floor: 9,
 		Text: "the rewrite emits every component of the state it replaces, under exactly the guard that component has: in aofshrink, the option words appended to a command ('field' under !field.Value().IsZero() only, 'ex' under object.Expires() != 0 only, 'object'/'string' on the two edges of objIsSpatial(object.Geo()), 'setchan'/'sethook' on the two edges of hook.channel, 'meta' for every element of hook.Metas, 'ex' under !hook.expires.IsZero() only; guards compared with locals rendered by their type, not their name) carry no other condition on the object, field or hook, the object command reads ID, Fields, Expires and Geo of the object, and the hook command appends the hook's stored message arguments unconditionally",
 		Run:  ruleEmitCoversState})
 }
